@@ -1,93 +1,186 @@
-"""C20 on the real code: each class of ill-posed input, embedded in an otherwise valid random problem, must raise the
-listed exception no later than the first request that needs the ill-defined quantity; well-posed inputs must answer
-with finite values."""
+"""C20 on the real code against the Lean model of the set-up checks (`Validate.setup`, driver command `validate`).
+
+A case is a *configuration of facts* (mode, designation of the blocks, carrier, which off-diagonal blocks of H_0 are non-zero
+and on which side of the diagonal, zero diagonal, form and defects of `fully_diagonalize`, (bi)orthonormality, solver options),
+from which a concrete call of `block_diagonalize` is built.  Compared: accepted / rejected at set-up and the exception class.
+Accepted cases are then evaluated through order 2: every output must be finite.  Classes that are decided later than set-up
+(coupled blocks sharing an energy — also when equal only up to rounding —, a non-Hermitian symbolic term) keep their own
+expectation: the listed error no later than the first request that needs the ill-defined quantity.
+An exhaustive stratum runs first: every position (i, j), i != j, of a single offending H_0 block for three blocks, both modes,
+every carrier and designation."""
 import os, sys; sys.path.insert(0, os.path.dirname(os.path.abspath(__file__)))
 from common import case_rnd, skip
-import sys, json, random, warnings
+import json, subprocess, warnings, itertools
 import numpy as np, sympy
 from scipy import sparse
 warnings.simplefilter("ignore")
 from pymablock import block_diagonalize
 
-def base(rnd):
-    sizes = [rnd.randint(1, 2) for _ in range(rnd.randint(2, 3))]; d = sum(sizes)
-    blocks = sum([[b] * s for b, s in enumerate(sizes)], [])
-    E = [10 * blocks[a] + rnd.choice([0, 1, 2]) + 1 for a in range(d)]
+def enum_cases():
+    out = []
+    for herm in (False, True):
+        for (i, j) in itertools.permutations(range(3), 2):
+            if herm and i > j: continue
+            for carrier in ("dense", "sparse", "sympy"):
+                for desig in ("indices", "vectors", "blocked"):
+                    if carrier == "sympy" and desig == "vectors": continue
+                    out.append({"hermitian": herm, "offenders": [(i, j)], "carrier": carrier, "designation": desig, "sizes": [1, 2, 1]})
+    return out
+
+def gen(rnd):
+    N = rnd.choice([1, 2, 2, 3, 3]); sizes = [rnd.randint(1, 2) for _ in range(N)]
+    herm = rnd.random() < 0.5
+    carrier = rnd.choice(["dense", "sparse", "sympy"])
+    desig = rnd.choice(["indices", "indices", "vectors", "blocked", "implicit"]) if carrier != "sympy" else rnd.choice(["indices", "blocked"])
+    if desig == "implicit" and N < 2: desig = "indices"
+    cfg = {"hermitian": herm, "carrier": carrier, "designation": desig, "sizes": sizes, "offenders": []}
+    feature = rnd.choice(["none", "none", "offdiag", "offdiag", "offdiag-unknown", "zero-diagonal", "fd-blocks", "fd-dict-ok", "fd-asymmetric", "fd-not-array",
+                          "fd-degenerate", "fd-bare", "not-orthonormal", "pairs", "custom-solver", "custom-solver+fd", "legacy-solver",
+                          "shared-eigenvalue", "shared-eigenvalue-rounding", "nonhermitian-symbolic-term", "implicit-fd-last", "kpm-nonhermitian"])
+    cfg["feature"] = feature
+    if feature in ("offdiag", "offdiag-unknown") and N >= 2:
+        k = rnd.choice([1, 1, 2]); pairs = list(itertools.permutations(range(N), 2)); rnd.shuffle(pairs)
+        cfg["offenders"] = [p for p in pairs[:k]]
+    return cfg
+
+def build(cfg, rnd):
+    """-> (H, kwargs, facts for the model, expectation for late classes)"""
+    sizes = cfg["sizes"]; N = len(sizes); d = sum(sizes); herm = cfg["hermitian"]; carrier = cfg["carrier"]; desig = cfg["designation"]
+    feature = cfg.get("feature", "offdiag")
+    blocks = sum([[b] * s for b, s in enumerate(sizes)], []); off = [0]
+    for s in sizes: off.append(off[-1] + s)
+    E = [10 * blocks[a] + rnd.choice([0, 1, 2]) + 1 + (a - off[blocks[a]]) * 3 for a in range(d)]      # distinct inside a block too
+    H0 = np.diag(np.array(E, dtype=float))
     rng = np.random.default_rng(rnd.randrange(2**31))
-    m = rng.integers(-3, 4, size=(d, d)).astype(float); H1 = m + m.T
-    return sizes, d, blocks, E, H1
+    m = rng.integers(-3, 4, size=(d, d)).astype(float); H1 = m + m.T if herm else m + np.diag(np.arange(d))
+    facts = {"hermitian": herm, "custom_solver": False, "legacy_solver": False, "fd": {"kind": "empty"}, "vectors": desig in ("vectors", "implicit"),
+             "pair_form": False, "biorthonormal": True, "implicit": desig == "implicit", "blocked_input": desig == "blocked", "symbolic_h0": carrier == "sympy",
+             "direct_solver": True, "array_vectors": True, "nblocks": N, "off": [], "diag_all_zero": False}
+    kw = {"hermitian": herm}; late = None
+    # ---- H_0 defects
+    unknown = feature == "offdiag-unknown" and carrier == "sympy"
+    offenders = list(cfg["offenders"])
+    if herm: offenders = sorted(set(offenders) | {(j, i) for (i, j) in offenders})    # a Hermitian input has a symmetric pattern
+    for (i, j) in offenders:
+        H0[off[i], off[j]] = 0.5
+        facts["off"].append({"i": i, "j": j, "test": "unknown" if unknown else "nonzero"})
+    if feature == "zero-diagonal" and desig != "implicit":      # (implicit mode with H_0 = 0 is a shared-energy problem for the sparse LU: RuntimeError)
+        H0 = np.zeros((d, d)); facts["diag_all_zero"] = True; facts["off"] = []
+    if feature == "shared-eigenvalue" and N >= 2 and desig != "implicit":
+        a, b = off[0], off[1]; H0[b, b] = H0[a, a]; H1[a, b] = H1[b, a] = 1.0; late = "shared"
+    if feature == "shared-eigenvalue-rounding" and N >= 2 and carrier != "sympy" and desig != "implicit":
+        a, b = off[0], off[1]; H0[a, a] = 0.1 + 0.2; H0[b, b] = 0.3; H1[a, b] = H1[b, a] = 1.0; late = "shared"
+        for c in range(d):
+            if c not in (a, b) and abs(H0[c, c] - 0.3) < 1: H0[c, c] += 5
+    # ---- fully_diagonalize
+    big = max(range(N), key=lambda i: sizes[i])
+    if feature == "fd-blocks":
+        sel = [b for b in range(N) if rnd.random() < 0.6]; kw["fully_diagonalize"] = tuple(sel); facts["fd"] = {"kind": "blocks", "blocks": sel}
+    if feature in ("fd-dict-ok", "fd-asymmetric", "fd-not-array", "fd-degenerate", "fd-bare") and sizes[big] == 2:
+        a = off[big]; mask = np.array([[False, True], [True, False]])
+        mf = {"block": big, "is_array": True, "symmetric": True, "eliminates_degenerate": False}
+        if feature == "fd-asymmetric": mask = np.array([[False, True], [False, False]]); mf["symmetric"] = False
+        if feature == "fd-degenerate": H0[a + 1, a + 1] = H0[a, a]; mf["eliminates_degenerate"] = True
+        val = mask
+        if feature == "fd-not-array": val = mask.tolist(); mf["is_array"] = False
+        if feature == "fd-bare":
+            kw["fully_diagonalize"] = val; facts["fd"] = dict(mf, kind="bare")
+        else:
+            kw["fully_diagonalize"] = {big: val}; facts["fd"] = {"kind": "dict", "masks": [mf]}
+    # ---- carriers
+    if carrier == "sympy":
+        S0 = sympy.Matrix(d, d, lambda a, b: sympy.nsimplify(H0[a, b], rational=True)); S1 = sympy.Matrix(H1.astype(int))
+        if unknown:
+            x = sympy.Symbol("x", real=True); und = sympy.sin(x) ** 2 + sympy.cos(x) ** 2 - 1
+            for f in facts["off"]: S0[off[f["i"]], off[f["j"]]] = und
+        Hs = [S0, S1]
+        if feature == "nonhermitian-symbolic-term" and herm and desig == "indices" and d >= 2:
+            S1b = S1.copy(); S1b[0, d - 1] = S1b[0, d - 1] + 1; lam = sympy.Symbol("lambda", real=True)
+            Hs = S0 + lam * S1b; kw["symbols"] = [lam]; late = "nonhermitian-term"
+    else:
+        conv = (lambda x: sparse.csr_array(x)) if carrier == "sparse" else (lambda x: np.array(x))
+        Hs = [conv(H0), conv(H1)]
+    # ---- designation
+    eye = np.eye(d); vecs = [eye[:, off[b]:off[b + 1]] for b in range(N)]
+    if desig == "indices": kw["subspace_indices"] = blocks
+    elif desig == "blocked":
+        def cut(M): return [[M[off[i]:off[i + 1], off[j]:off[j + 1]] for j in range(N)] for i in range(N)]
+        Hs = [cut(M) for M in Hs] if isinstance(Hs, list) else Hs
+    else:
+        use = vecs if desig == "vectors" else vecs[:-1]
+        if feature == "pairs": use = [(v, v.copy()) for v in use]; facts["pair_form"] = True
+        if feature == "not-orthonormal":
+            use = list(use); use[0] = (use[0][0] * 1.5, use[0][1]) if isinstance(use[0], tuple) else use[0] * 1.5; facts["biorthonormal"] = False
+        kw["subspace_eigenvectors"] = use
+        if desig == "implicit":
+            if feature == "implicit-fd-last": kw["fully_diagonalize"] = (N - 1,); facts["fd"] = {"kind": "blocks", "blocks": [N - 1]}
+            if feature == "kpm-nonhermitian": kw["direct_solver"] = False; facts["direct_solver"] = False
+    if feature in ("custom-solver", "custom-solver+fd", "legacy-solver"):
+        facts["custom_solver"] = True
+        if feature == "legacy-solver":
+            kw["solve_sylvester"] = lambda Y: Y; facts["legacy_solver"] = True
+            if N != 2 and late is None: late = "legacy solver is defined for two blocks only"
+        else: kw["solve_sylvester"] = lambda Y, index: Y
+        if feature == "custom-solver+fd" and N >= 1 and "fully_diagonalize" not in kw:
+            kw["fully_diagonalize"] = (0,); facts["fd"] = {"kind": "blocks", "blocks": [0]}
+    return Hs, kw, facts, late, sizes
 
-CLASSES = ["well-posed", "h0-not-block-diagonal", "h0-not-block-diagonal-sympy", "zero-diagonal", "shared-eigenvalue",
-           "mask-eliminates-degenerate-pair", "asymmetric-mask-hermitian", "non-orthonormal-vectors",
-           "well-posed-sympy-zero-block-fd", "nonhermitian-symbolic-term"]
-
-def run(cls, rnd):
-    sizes, d, blocks, E, H1 = base(rnd)
-    H0 = np.diag(np.array(E, dtype=float)); kw = dict(subspace_indices=blocks); setup_err = first_err = None; want = None; when = None
-    carrier = rnd.choice(["dense", "sparse"])
-    conv = (lambda x: sparse.csr_array(x)) if carrier == "sparse" else (lambda x: x)
-    H = [conv(H0), conv(H1)]
-    if cls == "h0-not-block-diagonal":
-        a = blocks.index(0); b = blocks.index(len(sizes) - 1); H0[a, b] = H0[b, a] = 0.5; H = [conv(H0), conv(H1)]; want, when = ValueError, "setup"
-    elif cls == "h0-not-block-diagonal-sympy":
-        a = blocks.index(0); b = blocks.index(len(sizes) - 1); S0 = sympy.Matrix(np.diag(E)); S0[a, b] = S0[b, a] = sympy.Rational(1, 2)
-        H = [S0, sympy.Matrix(H1.astype(int))]; want, when = ValueError, "setup"
-    elif cls == "zero-diagonal":
-        H = [conv(np.zeros((d, d))), conv(H1)]; want, when = ValueError, "setup"
-    elif cls == "shared-eigenvalue":
-        a = blocks.index(0); b = blocks.index(1); H0[b, b] = H0[a, a]; H1[a, b] = H1[b, a] = 1.0; H = [conv(H0), conv(H1)]; want, when = ValueError, "first-need"
-    elif cls == "mask-eliminates-degenerate-pair":
-        big = max(range(len(sizes)), key=lambda i: sizes[i])
-        if sizes[big] < 2: return None
-        a = blocks.index(big); H0[a + 1, a + 1] = H0[a, a]; H = [conv(H0), conv(H1)]
-        kw["fully_diagonalize"] = {big: np.array([[False, True], [True, False]])}; want, when = ValueError, "setup"
-    elif cls == "asymmetric-mask-hermitian":
-        big = max(range(len(sizes)), key=lambda i: sizes[i])
-        if sizes[big] < 2: return None
-        a = blocks.index(big); H0[a + 1, a + 1] = H0[a, a] + 1; H = [conv(H0), conv(H1)]
-        kw["fully_diagonalize"] = {big: np.array([[False, True], [False, False]])}; want, when = ValueError, "setup"
-    elif cls == "non-orthonormal-vectors":
-        vecs = [np.eye(d)[:, [a for a in range(d) if blocks[a] == b]] for b in range(len(sizes))]
-        vecs[0] = vecs[0] * 1.5; kw = dict(subspace_eigenvectors=vecs); H = [H0, H1]; want, when = ValueError, "setup"
-    elif cls == "well-posed-sympy-zero-block-fd":
-        E2 = [0 if blocks[a] == 0 else E[a] for a in range(d)]
-        H = [sympy.Matrix(np.diag(E2)), sympy.Matrix(H1.astype(int))]; kw["fully_diagonalize"] = (0,)
-    elif cls == "nonhermitian-symbolic-term":
-        S1 = sympy.Matrix(H1.astype(int)); S1[0, d - 1] = S1[0, d - 1] + 1
-        lam = sympy.Symbol("lambda", real=True)
-        H = sympy.Matrix(np.diag(E)) + lam * S1; kw["symbols"] = [lam]; want, when = ValueError, "first-need"
-    desc = {"class": cls, "sizes": sizes, "carrier": carrier, "energies": E}
-    try:
-        Ht, U, Ud = block_diagonalize(H, **kw)
-    except Exception as e:
-        setup_err = e
-    if setup_err is None:
-        try:
-            for n in (0, 1, 2):
-                for i in range(len(sizes)):
-                    v = Ht[i, i, n]
-                    if isinstance(v, np.ndarray) and not np.all(np.isfinite(v)): return dict(desc, kind="non-finite-output")
-        except Exception as e:
-            first_err = e
-    got = setup_err or first_err
-    if want is None:
-        return dict(desc, kind="well-posed-input-raises", error=type(got).__name__ + ": " + str(got)[:100]) if got else "ok"
-    if got is None: return dict(desc, kind="ill-posed-input-answered", expected=want.__name__ + " at " + when)
-    if not isinstance(got, want): return dict(desc, kind="wrong-exception-type", error=type(got).__name__ + ": " + str(got)[:100])
-    if when == "setup" and setup_err is None: return dict(desc, kind="raised-late", error=str(got)[:100])
-    return "ok"
+def classify(e):
+    for cls in (NotImplementedError, ValueError, TypeError):      # NotImplementedError is a RuntimeError, not a ValueError
+        if isinstance(e, cls): return cls.__name__
+    return "other:" + type(e).__name__
 
 def main(seed, ncases, driver, out):
-    rnd = random.Random(seed); failures = []; dist = {}; samples = []; evals = 0
-    for c in range(ncases):
+    proc = subprocess.Popen([driver], stdin=subprocess.PIPE, stdout=subprocess.PIPE, text=True)
+    failures = []; dist = {}; samples = []; evals = 0; distinct = set(); enum = enum_cases()
+    for c in range(len(enum) + ncases):
         if skip(c): continue
         rnd = case_rnd(seed, c)
-        cls = CLASSES[c % len(CLASSES)]; r = run(cls, rnd)
-        if r is None: continue
-        evals += 1; dist[cls] = dist.get(cls, 0) + 1
-        if r != "ok": failures.append(dict(r, case=c))
-        elif len(samples) < 3: samples.append({"class": cls, "case": c})
-    json.dump({"evaluations": evals, "cases": ncases, "distinct_nontrivial": evals, "failures": failures, "distribution": dist, "samples": samples}, open(out, "w"))
+        cfg = dict(enum[c], feature="offdiag") if c < len(enum) else gen(rnd)
+        try:
+            H, kw, facts, late, sizes = build(cfg, rnd)
+        except Exception as e:
+            failures.append({"case": c, "kind": "harness-could-not-build-the-case", "config": cfg, "error": repr(e)[:200]}); continue
+        proc.stdin.write(json.dumps(dict(facts, cmd="validate")) + "\n"); proc.stdin.flush()
+        model = proc.stdout.readline().strip()
+        if model.startswith("bad"):
+            failures.append({"case": c, "kind": "driver-rejected", "detail": model, "facts": facts}); continue
+        mclass = model.split(":")[0]
+        key = f"{cfg.get('feature')} / {cfg['designation']} / {cfg['carrier']} / hermitian={cfg['hermitian']}"; dist[key] = dist.get(key, 0) + 1
+        desc = {"case": c, "config": {k: v for k, v in cfg.items()}, "facts": facts, "model": model}
+        evals += 1; distinct.add(json.dumps(facts, sort_keys=True))
+        if len(samples) < 3: samples.append(desc)
+        setup_err = first_err = None
+        try:
+            Ht, U, Ud = block_diagonalize(H, **kw)
+        except Exception as e:
+            setup_err = e
+        got = "ok" if setup_err is None else classify(setup_err)
+        if got != mclass:
+            failures.append(dict(desc, kind="setup-outcome-differs", impl=got + ("" if setup_err is None else ": " + str(setup_err)[:120]))); continue
+        if setup_err is not None: continue
+        # accepted at set-up: evaluate; late classes must raise ValueError at first need, the others must be finite
+        nb = len(sizes) if cfg["designation"] != "implicit" else len(sizes) - 1
+        try:
+            for n in (0, 1, 2):
+                for i in range(nb):
+                    for S in (Ht, U):
+                        v = S[i, i, n]
+                        if hasattr(v, "toarray"): v = v.toarray()
+                        if isinstance(v, np.ndarray) and v.dtype != object and not np.all(np.isfinite(v)):
+                            failures.append(dict(desc, kind="non-finite-output", order=n)); raise StopIteration
+        except StopIteration:
+            continue
+        except Exception as e:
+            first_err = e
+        if late is not None:
+            if first_err is None: failures.append(dict(desc, kind="ill-posed-input-answered", expected=f"ValueError at first need ({late})"))
+            elif not isinstance(first_err, ValueError): failures.append(dict(desc, kind="wrong-exception-type", error=type(first_err).__name__ + ": " + str(first_err)[:120]))
+        elif first_err is not None:
+            failures.append(dict(desc, kind="well-posed-input-raises", error=type(first_err).__name__ + ": " + str(first_err)[:160]))
+    proc.stdin.close()
+    json.dump({"evaluations": evals, "cases": ncases + len(enum), "enumerated": len(enum), "distinct_nontrivial": len(distinct), "failures": failures,
+               "distribution": dist, "samples": samples}, open(out, "w"), default=str)
 
 if __name__ == "__main__":
     main(int(sys.argv[1]), int(sys.argv[2]), sys.argv[3], sys.argv[4])
